@@ -13,6 +13,8 @@ the element-wise path it is false for the offset-table locator: `overlap_counter
 KF-C06-overlapping-elementwise-relocation).
 -/
 import Cntgs.FixProofs
+import Cntgs.VarRelocProofs
+import Cntgs.Dec
 import Cntgs.World
 import Cntgs.Props.C01
 namespace Cntgs.C06
@@ -57,6 +59,14 @@ theorem history_no_relocation (ps : List Param) (fs : List Nat) (cap bytes : Nat
     Lifetimes v (ops.foldl VOp.spec []) (canonRec v.ps (ops.foldl VOp.spec [])) :=
   lifetimes_offset_table ((VarInv.new ps fs cap bytes junk hl hnf).history_noreloc junk ops hv)
 
+/-- **all value types**, offset-table locator: every history in which no erase relocates an element over its own
+    storage; `overlap_counter_witness` below shows that the condition cannot be dropped -/
+theorem history_no_overlap (ps : List Param) (fs : List Nat) (cap bytes : Nat) (junk : Nat → Nat)
+    (hl : ListOK ps) (hnf : isFixedOrPlain ps = false) (ops : List VOp) (hv : ValidNoOverlap ps [] ops) :
+    let v := ops.foldl (VOp.apply junk) (Vec.new ps fs cap bytes junk)
+    Lifetimes v (ops.foldl VOp.spec []) (canonRec v.ps (ops.foldl VOp.spec [])) :=
+  lifetimes_offset_table ((VarInv.new ps fs cap bytes junk hl hnf).history_all junk ops hv)
+
 /-- erase destroys exactly the erased elements: afterwards the live records are those of the remaining elements -/
 theorem erase_destroys_exactly {v : Vec} {es : List Elem} (h : VarInv v es) (ht : v.trivialReloc = true) (i j : Nat)
     (hij : i ≤ j) (hj : j ≤ es.length) :
@@ -77,6 +87,16 @@ theorem overlap_counter_witness :
   · simp only [witnessOps, Valid, VOp.Pre, VOp.spec, EOK, esz, elemCounts]
     decide +kernel
   · decide +kernel
+
+/-- the witness history is excluded by the no-overlap condition, and an erase in front of an element of the same size
+    (the situation the existing tests cover) meets it -/
+example : ¬ ValidNoOverlap witnessPs [] witnessOps := by
+  simp only [witnessOps, ValidNoOverlap, VOp.Pre, VOp.NoOverlap, VOp.spec, EOK, esz, elemCounts]
+  decide +kernel
+
+example : ValidNoOverlap witnessPs [] [.emplace [[1], [5]], .emplace [[1], [6]], .erase 0] := by
+  simp only [ValidNoOverlap, VOp.Pre, VOp.NoOverlap, VOp.spec, EOK, esz, elemCounts]
+  decide +kernel
 
 /-- ownership moves with the block: a moved-from vector holds no live object, so nothing is destroyed twice -/
 theorem moved_from_holds_nothing (v : Vec) : v.movedFrom.mem = [] ∧ v.movedFrom.size = 0 := by
